@@ -46,6 +46,16 @@ def r1_next_wakeup(ctx, rule='C05.R1'):
     if not ctx.floor('function computing the next wake-up (TimerQueue::next)', len(sc), 1):
         return
     fnext = sc[0]
+    # (0) what the module asks (Driver::next) IS that search, on every call: a forwarder with no state of its own — an answer cached or
+    # suppressed "because nothing changed" misses a wake-up that was never announced (not announced because a nearer one existed)
+    dn = P.fns.get(D + 'Driver::next')
+    if dn is not None and dn is not fnext:
+        alts = []
+        for _, t in ret_trees(dn):
+            t = peel(t)
+            alts += [peel(y) for y in (t[1] if t[0] == 'phi' else [t])]
+        ctx.check(bool(alts) and all(a[0] == 'call' and a[1] == fnext.key for a in alts), 'driver-next-is-the-search', 'Driver::next answers with the search over the live slots, unconditionally',
+                  dn.where(), [show(a)[:80] for a in alts][:3])
     # (a) can an emptied slot stay in the pending list?
     removers = []
     for f in P.fn_list:
